@@ -14,6 +14,7 @@ EVENTS = [
     ['ase', 1e-3], ['ase', 1.0], ['ase', 1e3], ['nli', 1e-4], ['nli', 0.3],
     ['demux_mux', 0], ['demux_mux', 1], ['demux_low', 0], ['plus', 0], ['plus', 1], ['select', 0], ['select', 1],
     ['split_noise_merge', 0], ['split_noise_parent', 0], ['split_noise_parent', 1],
+    ['demux_mux3', 0], ['demux_mux3', 1],
 ]
 NOISE_KINDS = {'ase', 'nli'}
 
@@ -157,6 +158,22 @@ def apply(st, ev):
             st.dropped = True
         else:
             st.si = muxed_spectral_information([a, b] if arg == 0 else [b, a])
+    elif kind == 'demux_mux3':
+        # three bands (what a three-band amplifier does): every channel must come back exactly once
+        if nch < 3:
+            st.skipped = True
+            return
+        i, j = nch // 3, (2 * nch) // 3
+        i = max(i, 1)
+        j = max(j, i + 1)
+        edges = [float(si.frequency[0] - si.slot_width[0] / 2), float(si.frequency[i] - si.slot_width[i] / 2),
+                 float(si.frequency[j] - si.slot_width[j] / 2), float(si.frequency[-1] + si.slot_width[-1] / 2)]
+        ups = [float(si.frequency[i - 1] + si.slot_width[i - 1] / 2), float(si.frequency[j - 1] + si.slot_width[j - 1] / 2), edges[3]]
+        parts = [demuxed_spectral_information(si, {'f_min': lo, 'f_max': hi}) for lo, hi in zip(edges[:3], ups)]
+        if any(p is None for p in parts):
+            st.skipped = True
+            return
+        st.si = muxed_spectral_information(parts if arg == 0 else [parts[2], parts[0], parts[1]])
     elif kind in ('split_noise_merge', 'split_noise_parent'):
         # what a multi-band amplifier does: bands are demuxed from one comb, each band gets its own noise and gain,
         # and either the bands are merged again or the original comb keeps being used (it must be unaffected)
@@ -293,7 +310,7 @@ def step_check(hist, ev, prev, nxt):
                 if rel(prev.si.pch[i], nxt.si.pch[i]) > 1e-15:
                     out.append(dict(fingerprint='nli-changed-total', what='add_nli changed the total channel power'))
                     break
-        if kind in ('demux_mux',):
+        if kind in ('demux_mux', 'demux_mux3'):
             if prev.si.number_of_channels != nxt.si.number_of_channels:
                 out.append(dict(fingerprint='demux-mux-lost-channels', what='band split + merge changed the channel count'))
     for v in out:
@@ -332,6 +349,9 @@ def run_case(case):
     if case['kind'] == 'propagation':
         from checks import common
         return common.c01_propagation_case(case)
+    if case['kind'] == 'multiband':
+        from checks import common
+        return common.c01_multiband_case(case)
     if case['kind'] == 'receiver':
         from checks import common
         return common.c01_receiver_case(case)
@@ -354,6 +374,7 @@ def main(rep, tier, seed):
             cases.append({'kind': 'bfs', 'init': name, 'prefix': [ev], 'depth': depth - 1})
     prop_cases = common.propagation_cases(tier, seed, purpose='C01')
     prop_cases += [dict(c, kind='receiver') for c in prop_cases if c['sim'] is None and c['topo'] in ('p2_2spans', 'p3_mixed')]
+    prop_cases += [dict(kind='multiband', net=n, variant=v) for n in ('CL', 'CLS', 'mixed_C_then_CL') for v in range(3)]
     results, stats = engine.run_pool('checks.c01', cases + prop_cases, horizon=3000, chunksize=1)
     rep.absorb(results)
     rep.cov['bound'] = (f'operation sequences of depth <= {depth} over {len(EVENTS)} operations from {len(inits)} '
